@@ -93,6 +93,8 @@ def run(idx: Index, rep: Report, tier: str) -> None:
         calls = [c for c in walk_no_nested(pw.node) if isinstance(c, ast.Call) and call_name(c) == "substitute" and norm(c.func.value) == v]
         # the reduced map: the dictionary filled under the `all(v not in bound …)` test
         reduced = {norm(a.targets[0].value) for i in _scope() if isinstance(i, ast.If) and any(x in alls for x in ast.walk(i.test)) for st in i.body for a in ast.walk(st) if isinstance(a, ast.Assign) and isinstance(a.targets[0], ast.Subscript)}
+        # … or a dictionary comprehension filtered by that test
+        reduced |= {norm(a.targets[0]) for a in _scope() if isinstance(a, ast.Assign) and len(a.targets) == 1 and isinstance(a.value, ast.DictComp) and any(x in alls for g in a.value.generators for t in g.ifs for x in ast.walk(t))}
         # … or the result of the helper that does the filtering
         reduced |= {norm(a.targets[0]) for a in walk_no_nested(pw.node) if isinstance(a, ast.Assign) and len(a.targets) == 1 and isinstance(a.value, ast.Call) and isinstance(a.value.func, ast.Attribute) and a.value.func.attr in _helper_names and any(x in alls for h in _helpers if h.node.name == a.value.func.attr for x in ast.walk(h.node))}
         ok = bool(calls) and bool(reduced) and all(len(c.args) == 2 and norm(c.args[0]) == "expression.arg(0)" and norm(c.args[1]) in reduced for c in calls)
